@@ -77,6 +77,7 @@ type ReqSpec struct {
 	SepEnd    bool        `json:"sep_end,omitempty"` // ... and after the last one too (newline-delimited JSON ends every line with its newline)
 	Timeout   string      `json:"timeout,omitempty"`
 	PingPong  bool        `json:"ping_pong,omitempty"`
+	ServerFirst bool      `json:"server_first,omitempty"` // bidi: the server speaks first - the client sends its first message only after the first answer has reached it
 	TwinOf    int         `json:"twin_of,omitempty"`   // C10: the same call script run directly against the backend (not through larking)
 	Poison    bool        `json:"poison,omitempty"` // gRPC: one frame flagged compressed whose payload is not gzip at all (this request is expected to fail; it is there for what it does to shared state)
 	Slash     bool        `json:"trailing_slash,omitempty"` // plain HTTP: the URL ends in "/" (the mux trims it before routing)
@@ -229,6 +230,9 @@ const (
 func (r *reqState) Enabled(op int) bool {
 	switch op {
 	case opSend:
+		if r.spec.ServerFirst && r.mSent == 0 {
+			return r.q.mOut > 0 || r.q.mAborted || r.q.mReturned
+		}
 		if !r.spec.PingPong {
 			return true
 		}
@@ -1143,6 +1147,9 @@ func (mr *muxRun) contextKey(rs *reqState) string {
 	}
 	if sp.Backend != "" {
 		k += "+proxied"
+	}
+	if sp.ServerFirst {
+		k += "+serverfirst"
 	}
 	if sp.Fault.Kind != "" {
 		k += "+" + sp.Fault.Kind
